@@ -207,10 +207,10 @@ type vfC08Case struct {
 	Miners []vfMinerScript `json:"miners"`
 }
 
-func vfGenRound(t *rapid.T, prev *vfRound) vfRound {
+func vfGenRound(t *rapid.T, prev *vfRound, earlier []uint64) vfRound {
 	r := vfRound{}
-	if prev != nil && rapid.IntRange(0, 3).Draw(t, "sameHeight") == 0 {
-		r.Height = prev.Height
+	if prev != nil && rapid.IntRange(0, 2).Draw(t, "sameHeight") == 0 {
+		r.Height = rapid.SampledFrom(earlier).Draw(t, "earlierHeight")
 	} else {
 		r.Height = rapid.SampledFrom([]uint64{50, 51, 7000, 1404800, 1404801, 1404802, 1500000}).Draw(t, "height")
 	}
@@ -246,7 +246,7 @@ func vfGenRound(t *rapid.T, prev *vfRound) vfRound {
 	}
 	r.Targets = append(r.Targets, vfTargetRule{Kind: "zero"})
 	r.Result = rapid.SampledFrom([]string{"accept", "accept", "accept", "accept", "orphan", "error"}).Draw(t, "result")
-	switch rapid.IntRange(0, 13).Draw(t, "event") {
+	switch rapid.IntRange(0, 17).Draw(t, "event") {
 	case 0:
 		r.Event = "tip-better"
 	case 1:
@@ -255,12 +255,18 @@ func vfGenRound(t *rapid.T, prev *vfRound) vfRound {
 		r.Event = "stop"
 	case 3:
 		r.Event = "switched"
+	case 4:
+		r.Event = "tip-moved" // a not-better notification, then the chain moves past the parent: the waiter cannot be re-armed
+	case 5, 6:
+		r.Event = "restart" // Stop()+Start() right after the template was handed out; nothing else special
 	}
-	if r.Event == "tip-better" || r.Event == "stop" {
+	if r.Event == "tip-better" || r.Event == "stop" || r.Event == "tip-moved" {
 		// the first eligible slot lies so far ahead that the miner cannot have reached it when the event arrives
 		r.Height = rapid.SampledFrom([]uint64{60, 61, 9000}).Draw(t, "evHeight")
-		if prev != nil && prev.Height == r.Height {
-			r.Height++
+		for _, h := range earlier {
+			if h == r.Height {
+				r.Height += 100
+			}
 		}
 		r.T0OffSec = rapid.IntRange(0, 2).Draw(t, "evT0")
 		infs := rapid.IntRange(4, 5).Draw(t, "evInf")
@@ -288,12 +294,14 @@ func vfGenC08(t *rapid.T) vfC08Case {
 	nm := rapid.IntRange(8, 12).Draw(t, "miners")
 	for i := 0; i < nm; i++ {
 		var ms vfMinerScript
-		nr := rapid.IntRange(1, 3).Draw(t, "rounds")
+		nr := rapid.IntRange(1, 4).Draw(t, "rounds")
 		var prev *vfRound
+		var earlier []uint64
 		for j := 0; j < nr; j++ {
-			r := vfGenRound(t, prev)
+			r := vfGenRound(t, prev, earlier)
 			ms.Rounds = append(ms.Rounds, r)
 			prev = &ms.Rounds[len(ms.Rounds)-1]
+			earlier = append(earlier, r.Height)
 		}
 		c.Miners = append(c.Miners, ms)
 	}
@@ -331,6 +339,7 @@ type vfRoundRT struct {
 	unbound  map[int]bool
 	tStart   time.Time
 	tipSent  time.Time
+	tipMoved time.Time
 	signs    []vfSign
 	blocks   []*vfSubmitted
 	asked    bool
@@ -550,7 +559,14 @@ func (w *vfWorld) BlockWaiter(height uint64) (<-chan *blockchain.BlockNode, erro
 	w.mu.Lock()
 	defer w.mu.Unlock()
 	r := w.cur
-	if r == nil || (r.spec.Event != "tip-better" && r.spec.Event != "tip-notbetter") || !r.tipSent.IsZero() {
+	if r != nil && r.spec.Event == "tip-moved" && !r.tipSent.IsZero() {
+		// the not-better notification was delivered; meanwhile a block of the next height became the tip
+		if r.tipMoved.IsZero() {
+			r.tipMoved = time.Now()
+		}
+		return nil, errors.New("scripted chain: wait for old block height")
+	}
+	if r == nil || (r.spec.Event != "tip-better" && r.spec.Event != "tip-notbetter" && r.spec.Event != "tip-moved") || !r.tipSent.IsZero() {
 		return ch, nil
 	}
 	r.tipSent = time.Unix(0, 1) // being sent
@@ -815,6 +831,10 @@ func (w *vfWorld) judgeBlock(r *vfRoundRT, b *vfSubmitted) *vlib.Failure {
 		if r.tipSent.Unix() > 1 && vfSlot(tsStar) > vfSlot(r.tipSent)+vfAllowAhead+1 {
 			return vlib.Failf("not-abandoned-after-better-tip", "%s: a better tip was delivered at %s (slot %d); the submitted block's slot %d could not be tried before slot %d", who, r.tipSent.Format("15:04:05.000"), vfSlot(r.tipSent), vfSlot(tsStar), vfSlot(tsStar)-vfAllowAhead)
 		}
+	case "tip-moved":
+		if !r.tipMoved.IsZero() && vfSlot(tsStar) > vfSlot(r.tipMoved)+vfAllowAhead+1 {
+			return vlib.Failf("not-abandoned-after-chain-moved-on", "%s: after a not-better notification the waiter could not be re-armed at %s (slot %d) because the chain had moved past the parent; the submitted block's slot %d could not be tried before slot %d", who, r.tipMoved.Format("15:04:05.000"), vfSlot(r.tipMoved), vfSlot(tsStar), vfSlot(tsStar)-vfAllowAhead)
+		}
 	case "stop":
 		if !r.stopCall.IsZero() && vfSlot(tsStar) > vfSlot(r.stopCall)+vfAllowAhead+1 {
 			return vlib.Failf("not-abandoned-after-stop", "%s: Stop() was called at %s (slot %d); the submitted block's slot %d could not be tried before slot %d", who, r.stopCall.Format("15:04:05.000"), vfSlot(r.stopCall), vfSlot(tsStar), vfSlot(tsStar)-vfAllowAhead)
@@ -894,7 +914,7 @@ loop:
 	for {
 		select {
 		case r := <-w.roundStart:
-			if r.spec.Event == "stop" {
+			if r.spec.Event == "stop" || r.spec.Event == "restart" {
 				time.Sleep(time.Duration(r.spec.DelayMs) * time.Millisecond)
 				if f := stop(r); f != nil {
 					out.fail = f
@@ -1055,7 +1075,7 @@ func vfC08Run(c vfC08Case, ctx *vlib.Ctx) *vlib.Failure {
 
 var vfC08Spec = vlib.Spec[vfC08Case]{
 	Prop: "C08", Name: "miner-rounds", NoShrink: true, Min: 1,
-	Rule: "8-12 started miners per case, each with 1-3 scripted templates: height (plot filter on/off, repeated heights), template time -15..+4 s from now, per fixture key a real BL=24 proof offered as ok / unbound / lookup error / altered x / other key's proof / absent, target function per slot from {unbeatable, zero, quality of the best or second-best eligible proof -1/0/+1}, ProcessBlock answer accept/orphan/error, events {better tip, not-better tip, Stop()+Start(), best block switched before the round}; oracle on every block handed to ProcessBlock: offered without error, verifies for the template challenge (with the height's plot filter), bound, timestamp = template time + k*3 s, quality > target(ts), header target = target(ts), no eligible proof better at that slot, no earlier slot eligible, signature verifies under the block's key, coinbase of that key, entered after its timestamp, at most one slot ahead when signed, height never accepted before, not after Stop() returned, none for rounds whose first eligible slot was out of reach when a better tip/Stop arrived or whose chain had switched; a plain round the miner left for another template without a block is a violation; non-trivial = a block with >=2 eligible proofs at a later slot than the template's, or a round with an event; distinct = distinct case JSON",
+	Rule: "8-12 started miners per case, each with 1-4 scripted templates: height (plot filter on/off, heights of earlier rounds again), template time -15..+4 s from now, per fixture key a real BL=24 proof offered as ok / unbound / lookup error / altered x / other key's proof / absent, target function per slot from {unbeatable, zero, quality of the best or second-best eligible proof -1/0/+1}, ProcessBlock answer accept/orphan/error, events {better tip, not-better tip, not-better tip after which the waiter cannot be re-armed, Stop()+Start() with the eligible slot far ahead, Stop()+Start() right after the template, best block switched before the round}; oracle on every block handed to ProcessBlock: offered without error, verifies for the template challenge (with the height's plot filter), bound, timestamp = template time + k*3 s, quality > target(ts), header target = target(ts), no eligible proof better at that slot, no earlier slot eligible, signature verifies under the block's key, coinbase of that key, entered after its timestamp, at most one slot ahead when signed, height never accepted before, not after Stop() returned, none for rounds whose first eligible slot was out of reach when a better tip/Stop arrived or whose chain had switched; a plain round the miner left for another template without a block is a violation; non-trivial = a block with >=2 eligible proofs at a later slot than the template's, or a round with an event; distinct = distinct case JSON",
 	Gen:  vfGenC08, Run: vfC08Run,
 }
 
